@@ -362,6 +362,15 @@ func (rn *runner) battery(in, mir *rinst, silent bool, frame bool) {
 	for i := range rn.pool.TH {
 		rn.traceHelper(&rn.pool.TH[i])
 	}
+	if rn.pool.Dump {
+		if d := dumpTree(in.r); d != "" {
+			line := obj("ev", js("dump"), "tree", d)
+			if rn.nodedup || !rn.seen["D"+key+line] {
+				rn.seen["D"+key+line] = true
+				rn.emit(line)
+			}
+		}
+	}
 }
 
 // traceHelper hands one request to the bundled mux.Trace helper; the stdlib dump of an
